@@ -112,7 +112,7 @@ fn main() {
         }
     }
     let types = [RType::Counter, RType::Gauge, RType::Histogram, RType::Summary];
-    rep.rule = format!("families from a bounded generator: for each of counter/gauge/histogram/summary every value of the float pool {:?} in every float slot (sample value, sum, bucket bound, quantile) x 12 bucket/quantile shapes (0-2 buckets, explicit +Inf bound, huge counts), label shapes of 0-2 pairs (thorough: 3) with every assignment from the string pool {:?} also used as help, every timestamp of {:?}; all ordered pairs and triples of a 6-family basis as streams; 20 streams placing a very large family (a 2 KiB token, a 64+ KiB family of 900 samples, a 400-bucket histogram) at every position among small ones; a size sweep (help text and label value of 0..8300 bytes, thorough also around 16K/32K/64K, ending in an escape, a multi-byte character and a quote); everything gather() returns over the registry enumeration (subsets <=2, all orders, all configs); call histories (failed encode then encode, repeated encode, mutate then re-encode). Each stream: 3 entry points byte-identical, UTF-8, append-only, independent 0.0.4 parser reads back exactly the same families. distinct = distinct encoded texts", floats().iter().map(|f| f64s(*f)).collect::<Vec<_>>(), STRS, TIMESTAMPS);
+    rep.rule = format!("families from a bounded generator: for each of counter/gauge/histogram/summary every value of the float pool {:?} in every float slot (sample value, sum, bucket bound, quantile) x 12 bucket/quantile shapes (0-2 buckets, explicit +Inf bound, huge counts), label shapes of 0-2 pairs (thorough: 3) with every assignment from the string pool {:?} also used as help, every timestamp of {:?}; all ordered pairs and triples of a 6-family basis as streams; 20 streams placing a very large family (a 2 KiB token, a 64+ KiB family of 900 samples, a 400-bucket histogram) at every position among small ones; a float sweep (every short decimal k/10^d, k<=2000, d<=4, thorough k<=20000, d<=6, both signs, with its neighbours 1 and 2 ulp away); a size sweep (help text and label value of 0..8300 bytes, thorough also around 16K/32K/64K, ending in an escape, a multi-byte character and a quote); everything gather() returns over the registry enumeration (subsets <=2, all orders, all configs); call histories (failed encode then encode, repeated encode, mutate then re-encode). Each stream: 3 entry points byte-identical, UTF-8, append-only, independent 0.0.4 parser reads back exactly the same families. distinct = distinct encoded texts", floats().iter().map(|f| f64s(*f)).collect::<Vec<_>>(), STRS, TIMESTAMPS);
     rep.bounds = json!({"strings": STRS.len(), "floats": floats().len(), "labels": if thorough {3} else {2}});
 
     let mut run = |rep: &mut Report, fams: &[RFamily], group: &str| {
@@ -168,6 +168,48 @@ fn main() {
                         rep.violation(format!("{}:size-sweep", class), format!("token of {}+6 bytes as help and label value: {}", k, d), json!({"engine":"enum","group": "size-sweep", "families": fams.iter().map(|f| f.to_json()).collect::<Vec<_>>(), "detail": d}));
                     }
                     Err(p) => rep.violation("panic:size-sweep".to_string(), format!("encoder panicked: {}", p), json!({"engine":"enum","group": "size-sweep", "families": fams.iter().map(|f| f.to_json()).collect::<Vec<_>>(), "detail": p})),
+                }
+            }
+        }
+    }
+    // float sweep: every short decimal k/10^d (k <= 2000, d <= 4; thorough k <= 20000, d <= 6), negated too, and its
+    // neighbours 1 and 2 ulp away, as gauge values — a rendering shortcut keyed on "is a short decimal" shows here
+    {
+        let (kmax, dmax) = if thorough { (20000u64, 6u32) } else { (2000u64, 4u32) };
+        let mut vals: Vec<f64> = vec![];
+        for d in 0..=dmax {
+            for k in 1..=kmax {
+                let v = k as f64 / 10f64.powi(d as i32);
+                for delta in [-2i64, -1, 0, 1, 2] {
+                    let w = f64::from_bits((v.to_bits() as i64 + delta) as u64);
+                    vals.push(w);
+                    vals.push(-w);
+                }
+            }
+        }
+        vals.sort_by(|a, b| a.to_bits().cmp(&b.to_bits()));
+        vals.dedup_by(|a, b| a.to_bits() == b.to_bits());
+        for (ci, chunk) in vals.chunks(5000).enumerate() {
+            let metrics: Vec<RMetric> = chunk.iter().enumerate().map(|(i, v)| RMetric { gauge: Some(*v), labels: vec![("i".into(), format!("{}", i))], ..Default::default() }).collect();
+            let f = RFamily { name: "fsweep".into(), help: "h".into(), typ: RType::Gauge, metrics };
+            rep.evaluations += chunk.len() as u64;
+            rep.transitions += 6;
+            match watchdog::case(|| format!("float sweep chunk {}", ci), || catch(|| round_trip(std::slice::from_ref(&f)))) {
+                Ok(Ok(_)) => rep.outcome(format!("fsweep:{}", ci % 4)),
+                Ok(Err((class, detail))) => {
+                    // find one offending value for the replay file
+                    let bad = chunk.iter().find(|v| {
+                        let one = RFamily { name: "fsweep".into(), help: "h".into(), typ: RType::Gauge, metrics: vec![RMetric { gauge: Some(**v), ..Default::default() }] };
+                        round_trip(std::slice::from_ref(&one)).is_err()
+                    });
+                    let one = RFamily { name: "fsweep".into(), help: "h".into(), typ: RType::Gauge, metrics: vec![RMetric { gauge: Some(*bad.unwrap_or(&chunk[0])), ..Default::default() }] };
+                    let d: String = detail.chars().take(200).collect();
+                    rep.violation(format!("{}:float-sweep", class), format!("gauge value {:?} (bits {:016x}) does not read back bit-exactly: {}", bad, bad.map(|b| b.to_bits()).unwrap_or(0), d), json!({"engine":"enum","group": "float-sweep", "families": [one.to_json()], "detail": d}));
+                    break;
+                }
+                Err(p) => {
+                    rep.violation("panic:float-sweep".to_string(), format!("encoder panicked: {}", p), json!({"engine":"enum","group": "float-sweep", "detail": p}));
+                    break;
                 }
             }
         }
